@@ -36,19 +36,19 @@ import (
 )
 
 type Opts struct {
-	Storage     string // "zstd" | "uncompressed"
-	Zstd        string // "go" | "cgo"
-	MaxSize     int64
-	MaxBlob     int64 // 0 => unlimited (MaxInt64)
-	HardLimit   int64
-	Proxy       cache.Proxy
-	ProxyMax    int64 // 0 => unlimited
-	NoValidateAC bool // HTTP: disable_http_ac_validation (=> RAW keyspace)
-	NoDepsCheck bool // gRPC: disable AC deps check
-	Mangle      bool
-	Dir         string // reuse this directory (not cleaned on New); "" => fresh scratch
-	NoServers   bool   // disk layer only
-	Metrics     bool
+	Storage      string // "zstd" | "uncompressed"
+	Zstd         string // "go" | "cgo"
+	MaxSize      int64
+	MaxBlob      int64 // 0 => unlimited (MaxInt64)
+	HardLimit    int64
+	Proxy        cache.Proxy
+	ProxyMax     int64 // 0 => unlimited
+	NoValidateAC bool  // HTTP: disable_http_ac_validation (=> RAW keyspace)
+	NoDepsCheck  bool  // gRPC: disable AC deps check
+	Mangle       bool
+	Dir          string // reuse this directory (not cleaned on New); "" => fresh scratch
+	NoServers    bool   // disk layer only
+	Metrics      bool
 }
 
 type Stack struct {
@@ -68,6 +68,7 @@ type Stack struct {
 	BS       bytestream.ByteStreamClient
 	Asset    asset.FetchClient
 	ownDir   bool
+	extra    []*httptest.Server
 	panics   atomic.Int64
 	panicMu  sync.Mutex
 	PanicLog []string
@@ -325,6 +326,11 @@ func (s *Stack) StopServers() {
 		s.grpcSrv.Stop()
 		s.grpcSrv = nil
 	}
+	for _, e := range s.extra {
+		e.CloseClientConnections()
+		e.Close()
+	}
+	s.extra = nil
 	if s.HTTP != nil {
 		if t, ok := s.Client.Transport.(*http.Transport); ok {
 			t.CloseIdleConnections()
@@ -406,4 +412,23 @@ func GoroutinesWith(substr string) []string {
 		}
 	}
 	return out
+}
+
+// AddHTTP mounts a second HTTP front end (with or without action-cache
+// validation) on the same cache, the way a second bazel-remote flag set-up
+// would, and returns its base URL. It is shut down by StopServers/Close.
+func (s *Stack) AddHTTP(noValidateAC bool) string {
+	maxBlob := s.Opts.MaxBlob
+	if maxBlob <= 0 {
+		maxBlob = 1<<63 - 1
+	}
+	h := server.NewHTTPCache(s.Cache, silent, silent, !noValidateAC, s.Opts.Mangle, false, false, "", "", maxBlob)
+	mux := http.NewServeMux()
+	mux.HandleFunc("/status", h.StatusPageHandler)
+	mux.HandleFunc("/", s.recoverHTTP(h.CacheHandler))
+	srv := httptest.NewUnstartedServer(mux)
+	srv.Config.ErrorLog = silent
+	srv.Start()
+	s.extra = append(s.extra, srv)
+	return srv.URL
 }
